@@ -52,6 +52,7 @@ def text_constant_ok(n0: bool, n1: bool, a0: bool, a1: bool, a2: bool, b0: bool,
     """
     pre: sel(a0, a1, a2) < 6 and sel(b0, b1, b2) < 6 and sel(c0, c1, c2) < 6
     pre: sel(p0, p1, p2) == 0 or sel(n0, n1) <= 1
+    pre: (sel(n0, n1) >= 3 or sel(c0, c1, c2) == 0) and (sel(n0, n1) >= 2 or sel(b0, b1, b2) == 0) and (sel(n0, n1) >= 1 or sel(a0, a1, a2) == 0)
     post: _
     """
     # text of length <= 3 over = " a 1 blank #, or one of 7 prefixes (error literals, a reference, a logical) plus <= 1 character
